@@ -290,8 +290,12 @@ def run_journaled(op_list: list, plan: dict, stats: dict, consumer: int = 0, hoo
                         inc("journal_exit_normal")
                     else:
                         e = RuntimeError("thrown inside the journal block")
-                        jr.__exit__(RuntimeError, e, None)
+                        swallowed = jr.__exit__(RuntimeError, e, None)
                         inc("journal_exit_by_exception")
+                        if swallowed and viol is None:
+                            # a `with` statement re-raises only when __exit__ returns a false value: outside a journal the
+                            # exception would have propagated, inside it now silently would not
+                            viol = {"clause": "exception-swallowed-by-journal", "detail": f"before op {i}: Journal.__exit__ returned {type(swallowed).__name__} (true) for an exception thrown inside its block at nesting depth {len([x for x in stack if x is not None]) + 1}: the `with` statement would suppress it", "key": "exception-swallowed-by-journal"}
                     live = [x for x in stack if x is not None]
                     if not live:
                         bad = _compare_with(observer_table)
